@@ -209,6 +209,18 @@ def fixed_points(chk, run: Runner, rng):
                         what=what + f", n_opt_iter={nit}", tag=("at", I["id"], nit), energy_clause="energy_exact")
             finally:
                 run.code.n_opt_iter = None
+        if kind == "uhf" and tuple(nelec)[0] != tuple(nelec)[1] or (kind == "uhf" and not np.allclose(Dex[0], Dex[1])):
+            # the same solution with an auxiliary wave_data["rdm1"] that is not the orbitals' own density
+            run.code.aux_rdm1 = "spin-averaged"
+            try:
+                for nit in (None, 1):
+                    run.code.n_opt_iter = nit
+                    run.run(kind, norb, nelec, hs, L, C0, "fixed-point", ref_energy=Eex, ref_D=Dex, tol_e=TOL_EFP,
+                            judged=wc or nit == 1, what=what + f", spin-averaged wave_data['rdm1'], n_opt_iter={nit or 30}",
+                            tag=("at", I["id"], "rdm1", nit), energy_clause="energy_exact")
+            finally:
+                run.code.aux_rdm1 = None
+                run.code.n_opt_iter = None
         chk.case(("fp", I["id"]))
         chk.sample({"kind": kind, "norb": norb, "nelec": list(nelec), "orbital_scale_s": s, "class": I["cls"],
                     "h1_up_times_s": I["hn"][0].tolist(), "chol": I["L"].tolist(), "Mu": I["Ms"][0].tolist(),
